@@ -295,6 +295,52 @@ impl Monitor for C08 {
                             }
                         }
                     }
+                    // the Anchor implementation of the same instruction (still in the tree, reference for fee updates) on a copy:
+                    // it must move the same exact amounts
+                    if ev.salt % 3 == 1 && rt::has_anchor_twin(v.ix) {
+                        let (ao, apost) = rt::exec_ix_anchor_twin(v.pre, v.ix, &rt::ExecOpts::default());
+                        cov.probe("anchor_implementation_evaluated");
+                        if ao.ok() {
+                            let amt_of = |k: &Pubkey| -> Option<i128> {
+                                apost.iter().find(|a| a.key == *k).filter(|a| a.data.len() >= 72).map(|a| u64::from_le_bytes(a.data[64..72].try_into().unwrap()) as i128 - token_amount(v.pre, k) as i128)
+                            };
+                            if let (Some(va), Some(vb)) = (amt_of(&x.pre_pool.vault_a), amt_of(&x.pre_pool.vault_b)) {
+                                if !aliased && (va != sign * ea_i || vb != sign * eb_i) {
+                                    out.push(viol("token_amounts", ev.idx, format!("Anchor implementation of {} L={} on {}..{} at tick {} price {} ({}): vault deltas {} / {}, exact amounts ({}) {} / {}",
+                                        name, liq, lo, hi, x.pre_pool.tick_current_index, x.pre_pool.sqrt_price, reg, va, vb, if inc { "rounded up" } else { "rounded down" }, ea, eb)));
+                                }
+                            }
+                        } else {
+                            out.push(viol("token_amounts", ev.idx, format!("Anchor implementation of {} L={} fails ({:#x}) where the live instruction succeeded", name, liq, ao.code)));
+                        }
+                    }
+                    // liquidity amounts at and beyond the signed 128-bit limit on a copy: if such a call goes through at all,
+                    // it must have changed the position by exactly that amount and moved its exact cost
+                    if ev.salt % 5 == 3 {
+                        for l in [1u128 << 127, (1u128 << 127) + liq, u128::MAX - liq + 1, u128::MAX] {
+                            let mut d2 = v.ix.data.clone();
+                            d2[8..24].copy_from_slice(&l.to_le_bytes());
+                            let (b0, b1) = if inc { (u64::MAX, u64::MAX) } else { (0u64, 0u64) };
+                            d2[24..32].copy_from_slice(&b0.to_le_bytes());
+                            d2[32..40].copy_from_slice(&b1.to_le_bytes());
+                            let mut ix2 = v.ix.clone();
+                            ix2.data = d2;
+                            let mut fork = v.pre.clone();
+                            let r = rt::exec_tx_simple(&mut fork, &Tx { ixs: vec![ix2] });
+                            cov.probe("huge_liquidity_forks");
+                            cov.eval(format!("huge_liquidity|{}|ok={}", name, r.ok));
+                            if r.ok {
+                                let q = fork.data(&x.pos_key).and_then(decode::position).map(|q| q.liquidity).unwrap_or(0);
+                                let moved = if inc { q.wrapping_sub(x.pre_pos.liquidity) } else { x.pre_pos.liquidity.wrapping_sub(q) };
+                                let (xa, xb) = model::liquidity_amounts(l, x.pre_pool.tick_current_index, x.pre_pool.sqrt_price, lo, hi, inc);
+                                let (va, vb) = (delta(v.pre, &fork, &x.pre_pool.vault_a), delta(v.pre, &fork, &x.pre_pool.vault_b));
+                                if moved != l || BigUint::from(va.unsigned_abs()) != xa || BigUint::from(vb.unsigned_abs()) != xb || (inc && (q < x.pre_pos.liquidity)) || (!inc && (q > x.pre_pos.liquidity)) {
+                                    out.push(viol("position_liquidity_delta", ev.idx, format!("{} with liquidity amount {} succeeds: the position went {} -> {}, the vaults moved {} / {} (exact amounts for that liquidity: {} / {})", name, l, x.pre_pos.liquidity, q, va, vb, xa, xb)));
+                                    break;
+                                }
+                            }
+                        }
+                    }
                     // add-then-remove on a fork at the unchanged price
                     if inc && ev.salt % 4 == 1 {
                         let mut fork = v.post.clone();
